@@ -132,7 +132,19 @@ Section Sem.
         end
     end.
 
-  Fixpoint l1_results (stepf : nat -> option (option nat)) (gs : list groupdata) (mn : N) (mx : option N) (greedy : bool)
+  (* one step of a single-character loop is also required to be undone by stepping back one character (and
+     redone by stepping forward one): what the backtracker relies on when it gives back iterations of
+     Loop1CharBody by next_left_pos / next_right_pos.  True on well-formed text; where it fails the semantics is
+     undefined (None), which the driver counts as inconclusive. *)
+  Definition step_inv (fwd : bool) (q q' : nat) : bool :=
+    match (if fwd then ix_next_left_pos ix h q' else ix_next_right_pos ix h q'),
+          (if fwd then ix_next_right_pos ix h q else ix_next_left_pos ix h q) with
+    | Ok (Some a), Ok (Some b) => (a =? q)%nat && (b =? q')%nat
+    | _, _ => false
+    end.
+
+  Fixpoint l1_results (stepf : nat -> option (option nat)) (chk : nat -> nat -> bool) (gs : list groupdata)
+           (mn : N) (mx : option N) (greedy : bool)
            (lf : nat) (k : N) (q : nat) {struct lf} : option (list mst) :=
     match lf with
     | O => None
@@ -142,10 +154,12 @@ Section Sem.
       | None => None
       | Some None => Some (if mn <=? k then [(q, gs)] else [])
       | Some (Some q') =>
-          match l1_results stepf gs mn mx greedy lf' (k + 1) q' with
-          | None => None
-          | Some it => Some (if mn <=? k then (if greedy then it ++ [(q, gs)] else (q, gs) :: it) else it)
-          end
+          if chk q q' then
+            match l1_results stepf chk gs mn mx greedy lf' (k + 1) q' with
+            | None => None
+            | Some it => Some (if mn <=? k then (if greedy then it ++ [(q, gs)] else (q, gs) :: it) else it)
+            end
+          else None
       end
     end.
 
@@ -228,7 +242,7 @@ Section Sem.
       | NLoop1CharBody body mn mx greedy =>
           match single_step (negb fwd) body fwd with
           | None => None
-          | Some stepf => l1_results stepf gs mn mx greedy f 0 p
+          | Some stepf => l1_results stepf (step_inv fwd) gs mn mx greedy f 0 p
           end
       | leaf =>
           match leaf_code (negb fwd) leaf with
